@@ -123,12 +123,13 @@ def check_templates(st):
 
 
 # ---- socket path: header lines, endings, segmentation at every offset
-PRELINES = [[], ['hello'], ['xSSH-2.0-a'], [' SSH-2.0-a'], ['SSH-'], ['Welcome to host', 'second line'], ['', 'after blank'], ['SSH-2', 'SSH-two.0-x']]
+PRELINES = [[], ['hello'], ['xSSH-2.0-a'], [' SSH-2.0-a'], ['SSH-'], ['Welcome to host', 'second line'], ['', 'after blank'], ['SSH-2', 'SSH-two.0-x'],
+            ['\x1b[1mSSH-2.0-gateway\x1b[0m ahead'], ['\x1b[32mWelcome\x1b[0m', 'plain line']]
 SOCK_BANNERS = ['SSH-2.0-OpenSSH_9.6', 'SSH-2.0-a.1 c d', 'SSH-1.99-dropbear_2020.81', 'SSH-2.0-a\x80b', 'SSH-1.99-a\x80b c', 'SSH-2.0-x  two  spaces ', 'SSH-2.0-Sun_SSH-1.5 was SSH-1.0']
 
 
 SOCK_INJECT = [b'\x80', b'\x00', b'\x7f', b'\x1c', b'\x1d', b'\x1e', b'\x1f', b'\x01', b'\x0b', b'\t', b'\xc2\x85', b'\xc2\xa0', b'\xe2\x80\xa8',
-               b'\xe3\x80\x80', b'\xc3\xa9', b'\xff\xfe']
+               b'\xe3\x80\x80', b'\xc3\xa9', b'\xff\xfe', b'\x1b', b'\x1b[0m', b'\x1b[1;31m', b'\x1b[m']
 ASCII_WS = (b'\t', b'\x0b', b'\x0c', b' ')
 
 
@@ -206,7 +207,9 @@ def work_cli(chunk, st):
                     st.violation('cli:text-banner-differs', {'pre': pre, 'banner': bl, 'shown': rep.gen.get('banner'), 'expected': RB.render(want)})
                 hdr = rep.gen.get('header')
                 wh = '\n'.join(h.rstrip() for h in wheader) if wheader else None
-                if (hdr or None) != wh:
+                if wh is not None:
+                    wh = report.strip_ansi(wh)      # the report parser removes colour sequences from every line it reads, header text included
+                if (hdr or None) != (wh or None):
                     st.violation('cli:text-header-differs', {'pre': pre, 'banner': bl, 'shown': hdr, 'expected': wh})
                 flagged = any('non-printable' in v for k, v in rep.gen_all if k.startswith('banner contains')) or '(gen) banner contains non-printable ASCII' in res.stdout
                 if flagged != (not want['valid_ascii']):
